@@ -162,7 +162,7 @@ def _run(ctx, pq):
 
     # ------------------------------------------------------------ B: datasets on disk
     n_b = 120 if quick else 1200
-    cases = [gen_dataset_case(rng, i < (4 if quick else 20), i) for i in range(n_b)]
+    cases = L.load_corpus("C14") + [gen_dataset_case(rng, i < (4 if quick else 20), i) for i in range(n_b)]
     # forked workers (harness.common.pmap): a native crash or a hang while opening/reading is a failing input
     results = L.run_dataset_jobs(ctx, check_dataset, cases, "b", _replayable)
     for case, res in zip(cases, results):
